@@ -135,6 +135,28 @@ def arch_table_case(arch):
     return {"nontrivial": True}
 
 
+NEW_ARCHES = ["e2k", "riscv64gc", "wasm32", "loongarch32", "x86_64_v3", "arm64e"]
+
+
+def extended_table_case(arch):
+    """the architecture table is the library's public, mutable list (the builders' refusals name it): an architecture a site adds to it
+    is an architecture of the table - parsed like the others, accepted by the builder under it"""
+    import productmd.common
+    from productmd.rpms import Rpms
+    table = productmd.common.RPM_ARCHES
+    table.append(arch)
+    try:
+        arch_table_case(arch)
+        c = {"name": "glibc-devel", "epoch": 1, "pad": 0, "version": "2.18", "release": "11.fc20", "arch": arch, "prefix": "Packages/g/", "rpm": True}
+        r = Rpms()
+        must("add-under-added-arch", r.add, "V", arch, assemble(c), "p/x.rpm", None, "binary", "glibc-1:2.18-11.fc20.src.rpm")
+        want = {"V": {arch: {"glibc-1:2.18-11.fc20.src": {"glibc-devel-1:2.18-11.fc20.%s" % arch: {"sigkey": None, "path": "p/x.rpm", "category": "binary"}}}}}
+        check(r.rpms == want, "rpms-key-not-canonical", lambda: "Rpms.add(%r) filed %r, expected %r" % (assemble(c), r.rpms, want))
+    finally:
+        table.remove(arch)
+    return {"nontrivial": True}
+
+
 def run(ctx):
     import productmd.common
     if ctx.shard == 0 and sorted(productmd.common.RPM_ARCHES) != sorted(gen.RPM_ARCHES):
@@ -143,7 +165,8 @@ def run(ctx):
     ctx.forall("parse", case_strategy, parse_case, ctx.n(6000, 320000))
     ctx.forall("rpms-key", case_strategy, rpms_key_case, ctx.n(1500, 60000))
     ctx.sweep("arch-table", sorted(set(productmd.common.RPM_ARCHES) | set(gen.RPM_ARCHES)), arch_table_case, exhaustive=True)
+    ctx.sweep("arch-table-extended", NEW_ARCHES, extended_table_case, exhaustive=True)
     ctx.sweep("small-alphabet-sweep", sweep_cases(ctx.thorough), sweep_one, exhaustive=True)
 
 
-REPLAY = {"parse": parse_case, "rpms-key": rpms_key_case, "small-alphabet-sweep": sweep_one, "arch-table": arch_table_case}
+REPLAY = {"parse": parse_case, "rpms-key": rpms_key_case, "small-alphabet-sweep": sweep_one, "arch-table": arch_table_case, "arch-table-extended": extended_table_case}
